@@ -210,10 +210,22 @@ def parse_assumptions(make_output):
     return blocks
 
 
+# Kernel primitives (binary64 floats and 63-bit integers): Print Assumptions lists them because they have no Gallina body;
+# they are not declarations of this development.  They are part of the trusted base of the theorems that mention them
+# (C03 linear ranges) and are named there.
+PRIMITIVE_PREFIXES = ("PrimFloat.", "PrimInt63.")
+
+
 def axioms_ok(block_text):
     names = re.findall(r"^([\w.']+)\s*:", block_text, re.M)
-    bad = [n for n in names if n.split(".")[-1] not in {a.split(".")[-1] for a in ALLOWED_AXIOMS}]
+    names = [n for n in names if n not in ("Axioms", "Variables")]
+    bad = [n for n in names if not n.startswith(PRIMITIVE_PREFIXES)
+           and n.split(".")[-1] not in {a.split(".")[-1] for a in ALLOWED_AXIOMS}]
     return bad
+
+
+def primitives_in(block_text):
+    return sorted({n for n in re.findall(r"^([\w.']+)\s*:", block_text, re.M) if n.startswith(PRIMITIVE_PREFIXES)})
 
 
 # --------------------------------------------------------------------------
@@ -290,7 +302,11 @@ def parse_natlists(output):
     outs = []
     for m in NATLIST.finditer(output):
         body = m.group(1).strip()
-        outs.append([int(x) for x in re.split(r"[;\s]+", body) if x.strip().isdigit()] if body else [])
+        toks = [x.strip() for x in re.split(r"[;\s]+", body) if x.strip()] if body else []
+        toks = [x[:-4] if x.endswith("%nat") else x for x in toks]
+        if not all(x.isdigit() for x in toks):
+            continue    # not a list of numerals: the caller sees a missing list and reports the shard
+        outs.append([int(x) for x in toks])
     return outs
 
 
@@ -386,6 +402,9 @@ class Check:
             for st, txt in blocks:
                 if st == "axioms":
                     badax = axioms_ok(txt)
+                    prims = primitives_in(txt)
+                    if prims:
+                        self.notes["kernel_primitives_in_assumptions"] = sorted(set(self.notes.get("kernel_primitives_in_assumptions", [])) | set(prims))
                     if badax:
                         ok = False
                         self.problems.append({"kind": "assumptions", "what": ",".join(badax), "detail": txt})
